@@ -98,6 +98,70 @@ pub fn scenarios(quick: bool) -> Vec<Scenario> {
     v
 }
 
+/// the destination *argument itself* already exists as each kind (including links that dangle, with and without a
+/// parent for what they name), for each kind of source, with and without -T
+pub fn dest_itself_scenarios() -> Vec<Scenario> {
+    let mut v = vec![];
+    let srcs: Vec<(&str, Vec<Entry>, Vec<&str>)> = vec![
+        ("file", vec![Entry::file("a", "new content").mtime(1_300_000_000, 1)], vec![]),
+        ("empty-file", vec![Entry::file("a", "")], vec![]),
+        ("link", vec![Entry::file("t0", "target of a"), Entry::link("a", "t0")], vec![]),
+        ("link-L", vec![Entry::file("t0", "target of a"), Entry::link("a", "t0")], vec!["-L"]),
+        ("fifo", vec![Entry::new("a", Kind::Fifo)], vec![]),
+        ("dir", vec![Entry::dir("a"), Entry::file("a/x", "inside a")], vec!["-r"]),
+    ];
+    let dests = ["file", "dir", "fifo", "link-to-file", "link-to-dir", "dangling", "dangling-no-parent", "dangling-relative"];
+    for d in drivers() {
+        for (sn, stree, sflags) in &srcs {
+            for dk in dests {
+                for t in [false, true] {
+                    let mut tree = stree.clone();
+                    tree.push(Entry::dir("outside"));
+                    tree.push(Entry::file("outside/keep", "bystander").mtime(1_200_000_000, 5));
+                    match dk {
+                        "file" => tree.push(Entry::file("b", "EXISTING").mtime(1_200_000_001, 6).mode(0o604)),
+                        "dir" => {
+                            tree.push(Entry::dir("b"));
+                            tree.push(Entry::file("b/a", "EXISTING in b").mtime(1_200_000_002, 7));
+                        }
+                        "fifo" => tree.push(Entry::new("b", Kind::Fifo).mode(0o622)),
+                        "link-to-file" => tree.push(Entry::link("b", "outside/keep")),
+                        "link-to-dir" => {
+                            tree.push(Entry::file("outside/a", "EXISTING behind the link").mtime(1_200_000_003, 8));
+                            tree.push(Entry::link("b", "outside"));
+                        }
+                        "dangling" => tree.push(Entry::link("b", "{R}/outside/victim")),
+                        "dangling-relative" => tree.push(Entry::link("b", "outside/victim")),
+                        _ => tree.push(Entry::link("b", "{R}/nowhere/victim")),
+                    }
+                    let mut args: Vec<&str> = vec!["-n", "--driver", d, "-w", "2"];
+                    args.extend_from_slice(sflags);
+                    if t {
+                        args.push("-T");
+                    }
+                    args.extend_from_slice(&["a", "b"]);
+                    v.push(Scenario::new(&format!("noclobber-dest-itself-{}-onto-{}{}-{}", sn, dk, if t { "-T" } else { "" }, d), tree, &args));
+                }
+            }
+        }
+    }
+    v
+}
+
+/// like `judge`, and nothing may appear outside the destination either (a file created through a link that dangled)
+pub fn judge_dest_itself(w: &Worker, scen: &Scenario, ex: &Exec) -> Judgement {
+    let mut j = judge(w, scen, ex);
+    for k in ex.snap.keys() {
+        if (k.starts_with("outside/") || k.starts_with("nowhere")) && !ex.before.contains_key(k) {
+            let exp = model::expect(scen);
+            if !exp.tree.contains_key(k) {
+                j.violations.push(format!("{} appeared although -n was given and the destination name existed", k));
+            }
+        }
+    }
+    j
+}
+
 pub fn run(ctx: &Ctx) -> Report {
     let mut rep = Report::new(
         "model_checking",
@@ -136,6 +200,15 @@ pub fn run(ctx: &Ctx) -> Report {
         }
         let st = explore(&ctx.pool, jobs, j);
         rep.part("a collision after 4200 files while the main thread (consumer of the status channel) is starved", st, serde_json::json!({"files": 4200}));
+    }
+    // the destination argument itself exists, as each kind
+    {
+        crate::explore::SNAP_BEFORE.store(true, std::sync::atomic::Ordering::Relaxed);
+        let sc = dest_itself_scenarios();
+        let n = sc.len();
+        let jd: Judge = &judge_dest_itself;
+        let st = scen_batch(ctx, sc, &[Policy::P0, Policy::P1], jd);
+        rep.part("the destination argument itself exists: source kinds x {file, dir, fifo, link to file, link to dir, dangling link (absolute, relative, no parent)} x {-, -T}", st, serde_json::json!({"scenarios": n}));
     }
     // -n combined with every other option: none of them may switch the protection off
     {
